@@ -175,6 +175,27 @@ func (c19) Gen(tier string, seed int64, emit func([]Ev)) {
 			case 6:
 				b.SubExp = a.SubExp + 1
 			}
+		case 3:
+			if i%8 == 3 {
+				// b differs from a in two compared fields whose differences could cancel in a packed or summed key: event id up
+				// by one with the time down by 2^32 (or 1), segment number up with segments expected down, ...
+				b = a
+				a.HasPTS, b.HasPTS = true, true
+				switch r.Intn(4) {
+				case 0:
+					a.PTS = (1 << 32) + uint64(r.Intn(1<<20))
+					b.PTS, b.Eid = a.PTS-(1<<32), a.Eid+1
+				case 1:
+					a.PTS = uint64(1 + r.Intn(1<<20))
+					b.PTS, b.Eid = a.PTS-1, a.Eid+1
+				case 2:
+					a.SegExp = 1 + r.Intn(200)
+					b.SegNum, b.SegExp = a.SegNum+1, a.SegExp-1
+				default:
+					a.PTS = (1 << 32) + uint64(r.Intn(1<<20))
+					b.PTS, b.SegNum = a.PTS-(1<<32), a.SegNum+1
+				}
+			}
 		case 2: // chain a = b = c candidates
 			b = a
 			c = a
